@@ -1,5 +1,7 @@
 import Barril.Model.CompoundIndex
 import Barril.Proofs.CompoundLemmas
+import Mathlib.Data.List.Nodup
+import Mathlib.Data.List.Range
 
 namespace Barril
 
@@ -100,5 +102,43 @@ theorem compoundOkOrKnown_of_index {t : CTree} {bs : List (Sym × CRow)} {tbl : 
   rw [← compoundOk_congr (look := t.find) (base := fun q => lookB q bs) c
     (fun x => tree_find_eq_lookL hA hB x) (lookB_eq_baseL hC hq)]
   exact h
+
+end Barril
+
+namespace Barril
+
+/-- if the index finds every row of the table under its own symbol and the rows carry their positions, then no
+symbol is listed twice -/
+theorem syms_nodup_of_index {t : CTree} {tbl : List CRow}
+    (hA : tbl.all (fun c => t.find c.sym == some c) = true)
+    (hP : tbl.map CRow.pos = List.range tbl.length) : (tbl.map (·.sym)).Nodup := by
+  have hnd : tbl.Nodup := by
+    have : (tbl.map CRow.pos).Nodup := by rw [hP]; exact List.nodup_range
+    exact List.Nodup.of_map _ this
+  refine List.Nodup.map_on ?_ hnd
+  intro c1 h1 c2 h2 hs
+  have e1 := List.all_eq_true.mp hA c1 h1
+  have e2 := List.all_eq_true.mp hA c2 h2
+  simp only [beq_iff_eq] at e1 e2
+  rw [hs, e2] at e1
+  exact (Option.some.inj e1).symm
+
+/-- in a list without repeated keys, looking a member's key up finds that member -/
+theorem find?_of_nodup_key {α : Type} (f : α → Nat) :
+    ∀ {l : List α}, (l.map f).Nodup → ∀ {w : α}, w ∈ l → l.find? (fun x => f x == f w) = some w := by
+  intro l
+  induction l with
+  | nil => intro _ w hw; cases hw
+  | cons a as ih =>
+    intro hnd w hw
+    simp only [List.map_cons, List.nodup_cons] at hnd
+    rcases List.mem_cons.mp hw with rfl | hw'
+    · simp
+    · have hne : f a ≠ f w := by
+        intro e
+        exact hnd.1 (e ▸ List.mem_map.mpr ⟨w, hw', rfl⟩)
+      have hb : (f a == f w) = false := by simpa using hne
+      simp only [List.find?_cons, hb]
+      exact ih hnd.2 hw'
 
 end Barril
